@@ -1414,7 +1414,10 @@ def c05_forms():
     forms = []
     for nm in MEMBER_MAP_NAMES:
         for ded in (None, 'A', 'B'):
-            forms.append((nm, ded))
+            # with an expression only, with the counterpart's member only, with both: which instruction wins must not depend on what
+            # the instructions carry (a winner without a member name must not borrow the name of a shadowed one)
+            for style in ('expr', 'name', 'both'):
+                forms.append((nm, ded, style))
     for nm in GHOSTS:
         for ded in (None, 'A', 'B'):
             forms.append((nm, ded))
@@ -1431,8 +1434,13 @@ def c05_trait_attrs():
     return out
 
 
-def c05_attr(form, k):
-    nm, ded = form
+def c05_attr(form, k, named=True):
+    nm, ded = form[0], form[1]
+    style = form[2] if len(form) > 2 and named else 'expr'
+    if style == 'name':
+        return Attr(nm, 'm%d' % k, ded=ded)
+    if style == 'both':
+        return Attr(nm, 'm%d, e%d(~)' % (k, k), ded=ded)
     if nm in GHOSTS:
         return Attr(nm, '{ g%d() }' % k, o2o=(nm != 'ghost'), ded=ded)
     if nm == 'as_type':
@@ -1470,7 +1478,7 @@ def c05_into_item(forms):
 
 def c05_item(forms, shape='named'):
     named = shape == 'named'
-    fa = [c05_attr(f, i + 1) for i, f in enumerate(forms)]
+    fa = [c05_attr(f, i + 1, named) for i, f in enumerate(forms)]
     fields = [Field('a' if named else None, 'i32', fa), Field('b' if named else None, 'i16', [])]
     return Item('struct', 'S', shape, '', c05_trait_attrs(), fields, {'gen': 'c05', 'forms': forms, 'shape': shape})
 
